@@ -56,7 +56,12 @@ def _case(draw):
             bases = draw(st.lists(st.sampled_from(sorted(mapped)), unique=True, min_size=1, max_size=3))
             uvs[vs] = {"%04X" % cp: draw(st.sampled_from(names)) for cp in bases}
         lib["public.unicodeVariationSequences"] = uvs
+    second = None
+    if draw(st.integers(0, 3)) == 0:
+        # a second master with the same glyphs and its own stored order: compiled together with the first, each follows its own (or the argument)
+        second = {"order": draw(order_st)}
     return {
+        "second": second,
         "spec": {"info": {"unitsPerEm": 1000}, "glyphs": glyphs, "lib": lib},
         "order": order,
         "as_arg": as_arg,
@@ -190,6 +195,38 @@ def run_case(case, ctx):
             raise Violation("variation sequences differ", got=gotu, expected=expu)
     elif (14, 0, 5) in subs:
         raise Violation("format 14 subtable present without UVS data")
+    if case.get("second"):
+        # multi-source compile: the glyph order rule applies to every compiled master with its own stored order
+        so = case["second"]["order"]
+        sp2 = dict(spec)
+        if so is not None:
+            sp2["glyphOrder"] = so
+        f1, f2 = S.build(sp, module), S.build(sp2, module)
+        for ff, oo in ((f1, lib_order), (f2, so)):
+            if "public.glyphOrder" in ff.lib and oo is None:
+                del ff.lib["public.glyphOrder"]
+        with guard("multi-source compile"):
+            if case["flavour"] == "ttf":
+                outs = list(ufo2ft.compileInterpolatableTTFs([f1, f2], useProductionNames=False, featureWriters=[], **kw))
+            else:
+                from fontTools.designspaceLib import AxisDescriptor, DesignSpaceDocument, SourceDescriptor
+
+                ds = DesignSpaceDocument()
+                ax = AxisDescriptor()
+                ax.name, ax.tag, ax.minimum, ax.default, ax.maximum = "Weight", "wght", 0, 0, 1000
+                ds.addAxis(ax)
+                for k_, ff in enumerate((f1, f2)):
+                    sd = SourceDescriptor()
+                    sd.font, sd.name, sd.location = ff, "m%d" % k_, {"Weight": 1000 * k_}
+                    ds.addSource(sd)
+                outs = [sd.font for sd in ufo2ft.compileInterpolatableOTFsFromDS(ds, useProductionNames=False, featureWriters=[], **kw).sources]
+        for k_, (tt, stored) in enumerate(zip(outs, (lib_order, so))):
+            eff = list(case["order"]) if (as_arg and case["order"] is not None) else stored
+            e2 = expected_order(names, eff)
+            if tt.getGlyphOrder() != e2:
+                raise Violation("glyph order of a master compiled together with others differs from its own requested / stored order", master=k_, got=tt.getGlyphOrder(), expected=e2,
+                                stored_orders=[lib_order, so], argument=case["order"] if as_arg else None)
+        ctx.label("two-masters-with-own-stored-orders")
     if order and exp != expected_order(names, []):
         ctx.label("order-reorders")
         ctx.nontrivial()
